@@ -22,12 +22,23 @@ def points_loader(s):
     x = torch.arange(L, dtype=torch.float64).reshape(L, 1)
     d = torch.tensor(s.get("d") or [0] * L, dtype=torch.float64).reshape(L, 1)
     y = x + d
+    if s.get("grid"):          # grid-shaped data (N, 2, 1): every datum is a function on two nodes (operator data); both nodes carry the id
+        x, y = x.reshape(L, 1, 1).repeat(1, 2, 1), y.reshape(L, 1, 1).repeat(1, 2, 1)
     return X, U, tp.utils.PointsDataLoader((Points(x, X), Points(y, U)), batch_size=s["bb"],
                                            shuffle=s["shufB"], drop_last=s["drop"])
 
 
 def run_one(s):
+    try:
+        return _run_one(s)
+    finally:            # (error paths return early: no live objects may stay in the scenario record)
+        for a in s.get("agg") or []:
+            a.pop("cond", None)
+
+
+def _run_one(s):
     kind = s["kind"]
+    s = dict(s, grid=(kind == "points" and s["tid"] % 3 == 0))
     tr = {"batches": []}
     if kind == "points":
         X, U, loader = points_loader(s)
@@ -35,9 +46,15 @@ def run_one(s):
         def it():
             res = []
             for xb, yb in loader:
-                xi = ints(xb.as_tensor)
-                res.append({"br": xi, "tgt": ints(yb.as_tensor),
-                            "shape_ok": list(xb.as_tensor.shape) == [len(xi), 1] and list(yb.as_tensor.shape) == [len(xi), 1],
+                xt, yt = xb.as_tensor, yb.as_tensor
+                if s.get("grid"):
+                    ok = xt.dim() == 3 and list(xt.shape[1:]) == [2, 1] and yt.shape == xt.shape and bool((xt[:, 0] == xt[:, 1]).all()) and bool((yt[:, 0] == yt[:, 1]).all())
+                    xt, yt = (xt[:, 0], yt[:, 0]) if ok else (xt.reshape(-1, 1), yt.reshape(-1, 1))
+                else:
+                    ok = True
+                xi = ints(xt)
+                res.append({"br": xi, "tgt": ints(yt),
+                            "shape_ok": ok and list(xt.shape) == [len(xi), 1] and list(yt.shape) == [len(xi), 1],
                             "spaces_ok": xb.space == X and yb.space == U})
             return res
         r = watched(it)
